@@ -4,6 +4,6 @@ from .simprops import generic_run, sizes, sim_replay
 from .p_session import run_session_correspondence
 LABELS = {"C04", "PANIC"}
 def run(ctx):
-    generic_run(ctx, LABELS, extra=run_session_correspondence, plan=[("starve", lambda: F.fam_starve(ctx.rng, sizes(ctx, 200, 2000))), ("c01w", lambda: F.fam_c01(ctx.rng, sizes(ctx, 200, 2000), tag="c04", windows=tuple(range(0, 13))))])
+    generic_run(ctx, LABELS, extra=run_session_correspondence, plan=[("dstarve", lambda: F.fam_death_starve(ctx.rng, sizes(ctx, 100, 1000))), ("starve", lambda: F.fam_starve(ctx.rng, sizes(ctx, 200, 2000))), ("c01w", lambda: F.fam_c01(ctx.rng, sizes(ctx, 200, 2000), tag="c04", windows=tuple(range(0, 13))))])
 def replay(ctx, path):
     return sim_replay(ctx, path, LABELS)
